@@ -679,7 +679,7 @@ func c02(c *Ctx) {
 	})
 	ec := c.Fn(m + "ChannelStore.prepareExactCheckpointLocked")
 	hwStore := StoreTo{Addr: "*.HW"}
-	c.c02Guard("R3-hw", ec, OneOf{hwStore, StoreTo{Addr: "prepared.checkpoint"}},
+	c.c02Guard("R3-hw", ec, OneOf{hwStore, StoreTo{Addr: "*.checkpoint"}},
 		"committed <= proposalLEO", "committed > *.HW", "*.HW <= visibleLEO", "*.loadCheckpoint(*)#2 == nil")
 	c.StoreShape("R3-hw", ec, "*.HW", "committed")
 	c.c02Guard("R3-hw", ec, RetNil{}, "committed <= proposalLEO", "committed == 0 || *.HW <= visibleLEO", "committed == 0 || *.loadCheckpoint(*)#2 == nil")
@@ -699,7 +699,7 @@ func c02(c *Ctx) {
 	c.c02Guard("R3-hw", rep, StoreTo{Addr: "*.HW", Val: "req.Committed"}, "req.Committed >= *.Committed", "req.Committed <= *.prepareRecoveryReplacementLocked(*)#1", "* == req.Expected")
 	af := c.Fn(m + "ChannelStore.prepareApplyFetchedRecordsLocked")
 	c.c02Guard("R3-hw", af, StoreTo{Addr: "*.HW"}, "*.CheckpointHW <= *", "*.CheckpointHW > *.HW")
-	c.c02Guard("R3-hw", af, StoreTo{Addr: "prepared.checkpoint"},
+	c.c02Guard("R3-hw", af, StoreTo{Addr: "*.checkpoint"},
 		"*.validateCheckpointMonotonicLocked(*) == nil")
 	// merged checkpoint keeps the largest HW
 	mg := c.Fn(m + "mergePreparedCommitRows")
@@ -734,12 +734,12 @@ func c02(c *Ctx) {
 	fetch := c.Fn(r + "storeAdapter.Fetch")
 	res, _ := c02FieldStores(c, r+"FetchRangeResult.Proposals", "")
 	c.c02Guard("R4-fetch", fetch, res,
-		"* == request.Expected",
+		"* == *.Expected",
 		"*recoveryProposalsFromPage(*)#1 == nil",
 		"*.ReadExactRecoveryPage(*)#1 == nil || phi(*ReadExactRecoveryPage(*)#1*) == nil")
 	c.StoreShape("R4-fetch", fetch, "*ReplicaState.LEO", "*.LEO")
 	c.StoreShape("R4-fetch", fetch, "*ReplicaState.Committed", "*.HW")
-	c.CallShape("R4-fetch", fetch, "*recoveryProposalsFromPage", "*(request, *)")
+	c.CallShape("R4-fetch", fetch, "*recoveryProposalsFromPage", "*(*, *)")
 	rp := c.Fn(r + "recoveryProposalsFromPage")
 	c.c02Guard("R4-fetch", rp, RetNil{},
 		"len(page.Records) != 0", "len(page.Entries) == len(page.Records)",
